@@ -84,16 +84,26 @@ class Ctx:
 
     # ------------------------------------------------------------------ Go harness
     def build_harness(self, name, tags="verif"):
-        """go build /verif/harness/cmd/<name> against /repo's working tree; returns binary path."""
+        """go build /verif/harness/cmd/<name> against the tree under test (default /repo's working
+        tree; VERIF_REPO=<dir> points the module replacement at a scratch worktree instead, which is
+        how seeded changes are tried without touching /repo).  Returns the binary path."""
         hdir = os.path.join(VERIF, "harness")
-        shutil.copy(os.path.join(REPO, "go.sum"), os.path.join(hdir, "go.sum"))
         out = os.path.join(self.scratch, name)
-        cmd = ["go", "build", "-tags", tags, "-o", out, "./cmd/" + name]
+        cmd = ["go", "build", "-tags", tags, "-o", out]
+        if os.path.realpath(REPO) == "/repo":
+            shutil.copy(os.path.join(REPO, "go.sum"), os.path.join(hdir, "go.sum"))
+        else:
+            mf = os.path.join(self.scratch, "alt.mod")
+            txt = open(os.path.join(hdir, "go.mod")).read().replace("=> /repo", "=> " + os.path.realpath(REPO))
+            open(mf, "w").write(txt)
+            shutil.copy(os.path.join(REPO, "go.sum"), os.path.join(self.scratch, "alt.sum"))
+            cmd += ["-modfile", mf]
+        cmd.append("./cmd/" + name)
         t = time.time()
         p = subprocess.run(cmd, cwd=hdir, env=goenv(), capture_output=True, text=True)
         if p.returncode != 0:
             raise Inconclusive("harness build failed (%s):\n%s" % (" ".join(cmd), p.stdout + p.stderr))
-        self.log("built harness %s in %.1fs" % (name, time.time() - t))
+        self.log("built harness %s in %.1fs (tree under test: %s)" % (name, time.time() - t, REPO))
         return out
 
     def run_harness(self, binary, args, cases_path, timeout_s=1200, env=None):
